@@ -273,13 +273,16 @@ def run(chk):
                 targets.append('r.' + fld[t])
                 if any(x == targets[-1] for x in targets[:-1]):
                     targets[-1] = f'w{i}{tc}'
-        prompt = rng.choice([None, 'Value', 'x, y'])
+        # the prompt protocol: text, then "? " exactly when there is no prompt or it is followed by a semicolon (an empty
+        # prompt text followed by a comma shows nothing at all); a leading semicolon (stay on the line) changes nothing shown
+        prompt = rng.choice([None, 'Value', 'x, y', '', '', '?', ' '])
         sep = rng.choice([';', ','])
+        lead = rng.choice(['', '', '; '])
         if prompt is None:
-            stmt = 'INPUT ' + ', '.join(targets)
+            stmt = 'INPUT ' + lead + ', '.join(targets)
             shown, q = '', True
         else:
-            stmt = f'INPUT "{prompt}"{sep} ' + ', '.join(targets)
+            stmt = f'INPUT {lead}"{prompt}"{sep} ' + ', '.join(targets)
             shown, q = prompt, sep == ';'
         body.append(stmt)
         for t, tg in zip(tys, targets):
